@@ -8,7 +8,7 @@
    system with the modes the property allows. *)
 From Coq Require Import Permutation.
 From Oras Require Import Base.Prelude Generated.GC12 Model.TarRoundTrip Model.FileAnnotations
-  Proofs.TarRoundTrip Proofs.TarWalkOrder Proofs.TarListingOrder Proofs.TarRootMode Proofs.TarUnprivileged Proofs.TarSourceFacts.
+  Proofs.TarRoundTrip Proofs.TarWalkOrder Proofs.TarListingOrder Proofs.TarModeSweep Proofs.TarRootMode Proofs.TarUnprivileged Proofs.TarSourceFacts.
 
 (* Round trip at full strength: every path of the restored directory -- the directory itself
    included -- is the path of the source tree: same kind, bytes, link target, and mode (minus
@@ -339,6 +339,27 @@ Theorem C12_source_literals :
   N.land c12_dir_owner_bits owner_wx = owner_wx /\ c12_dir_owner_bits <= 511 /\ c12_ensure_dir_perm = 511.
 Proof. exact source_literals. Qed.
 Print Assumptions C12_source_literals.
+
+(* restoreDirModes without PreservePermissions: the special bits of the result are those the
+   directory already had (e.g. the set-group-ID bit inherited from a setgid working directory)
+   and those recorded; the permission bits are never wider than what the directory had.
+   For all numbers, by bit-level reasoning. *)
+Theorem C12_narrow_special :
+  forall cur m, N.land (narrow_mode cur m) 3584 = N.lor (N.land cur 3584) (N.land m 3584).
+Proof. exact narrow_special. Qed.
+Print Assumptions C12_narrow_special.
+
+Theorem C12_narrow_never_widens :
+  forall cur m, N.land (narrow_mode cur m) 511 = N.land (N.land cur 511) (N.land m 511).
+Proof. exact narrow_never_widens. Qed.
+Print Assumptions C12_narrow_never_widens.
+
+(* the user's own umask can take the owner's permissions away (umask 0300): EACCES for the owner,
+   fine for root -- the permission check of the model is not vacuous on the current code *)
+Example C12_owner_bit_umask_refuses :
+  extract_p false [b "d"] 192 false (tar_entries [b "d"] true readonly_dir_witness) = Err XPerm /\
+  exists f, extract_p true [b "d"] 192 false (tar_entries [b "d"] true readonly_dir_witness) = Ok f.
+Proof. exact owner_bit_umask_refuses. Qed.
 
 (* The three annotations Add writes do not clobber each other (keys regenerated from
    content/file/file.go) and make Store.push unpack unless SkipUnpack. *)
